@@ -143,6 +143,8 @@ pub mod verif_hooks {
         pub perturb_quotient_of_challenge: Option<usize>,
         /// Truncate a quotient that does not fit instead of aborting.
         pub lenient_quotient_truncation: bool,
+        /// Start the running sum of every lookup table at the offset that makes it end at zero.
+        pub offset_lookup_sums: bool,
     }
 
     std::thread_local! {
@@ -623,6 +625,19 @@ fn compute_lookup_polys<
                     .fold(F::ZERO, |acc, s| acc + looking_combo_inverses[s]);
                 final_poly_vecs[slot + 1].values[row] = prev - sum;
             }
+        }
+    }
+
+    #[cfg(feature = "verif_hooks")]
+    if verif_hooks::get().offset_lookup_sums {
+        for lookup_wire in prover_data.lookup_rows.iter() {
+            let offset = -final_poly_vecs[num_partial_lookups].values[lookup_wire.last_lu_gate];
+            for row in lookup_wire.last_lu_gate..=lookup_wire.first_lut_gate {
+                for poly in final_poly_vecs[1..].iter_mut() {
+                    poly.values[row] += offset;
+                }
+            }
+            final_poly_vecs[num_partial_lookups].values[lookup_wire.first_lut_gate + 1] += offset;
         }
     }
 
